@@ -605,6 +605,71 @@ func reachingStores(a *ssa.Alloc, at ssa.Instruction) []ssa.Value {
 	return out
 }
 
+// reachingFieldStores: the values that field `field` of the local struct variable `base` may hold just before `at`:
+// the latest store to that field on each way in, looking through a copy of the whole struct from another local
+// (a composite literal assigned to the variable). ok=false when some way in cannot be resolved (the struct is written
+// as a whole from something else, or never written).
+func reachingFieldStores(base *ssa.Alloc, field int, at ssa.Instruction, depth int) (vals []ssa.Value, ok bool) {
+	if depth > 3 {
+		return nil, false
+	}
+	ok = true
+	seenBlk := map[*ssa.BasicBlock]bool{}
+	add := func(v ssa.Value) {
+		for _, o := range vals {
+			if o == v {
+				return
+			}
+		}
+		vals = append(vals, v)
+	}
+	var scan func(b *ssa.BasicBlock, from int)
+	scan = func(b *ssa.BasicBlock, from int) {
+		for i := from; i >= 0; i-- {
+			st, isStore := b.Instrs[i].(*ssa.Store)
+			if isStore {
+				if fa, isFA := st.Addr.(*ssa.FieldAddr); isFA && fa.X == ssa.Value(base) && fa.Field == field {
+					add(st.Val)
+					return
+				}
+				if st.Addr == ssa.Value(base) {
+					// the whole struct: copied from another local struct?
+					if u, isLoad := st.Val.(*ssa.UnOp); isLoad && u.Op == token.MUL {
+						if b2, isAlloc := u.X.(*ssa.Alloc); isAlloc {
+							vs, ok2 := reachingFieldStores(b2, field, u, depth+1)
+							if ok2 {
+								for _, v := range vs {
+									add(v)
+								}
+								return
+							}
+						}
+					}
+					ok = false
+					return
+				}
+			}
+			if b.Instrs[i] == ssa.Instruction(base) {
+				add(nil) // zero value of the field
+				return
+			}
+		}
+		if len(b.Preds) == 0 {
+			add(nil)
+			return
+		}
+		for _, p := range b.Preds {
+			if seenBlk[p] {
+				continue
+			}
+			seenBlk[p] = true
+			scan(p, len(p.Instrs)-1)
+		}
+	}
+	scan(at.Block(), instrIndex(at)-1)
+	return vals, ok
+}
+
 // origins resolves v through phis, identity conversions and loads of simple local cells
 // to the set of defining values (nil = zero value of a cell).
 func origins(v ssa.Value) []ssa.Value {
